@@ -870,3 +870,32 @@ func storesToFieldInBlock(b *ssa.BasicBlock, f *types.Var) []*ssa.Store {
 	}
 	return out
 }
+
+// RangeFuncNoBreak: every range-over-func loop body inside fn (a synthetic
+// closure returning "continue?") returns true on all paths: the loop is never
+// left early, so every element the iterator yields is visited. Returns the
+// number of loop bodies.
+func (c *Ctx) RangeFuncNoBreak(fn *ssa.Function, label string) int {
+	n := 0
+	var walk func(f *ssa.Function)
+	walk = func(f *ssa.Function) {
+		for _, a := range f.AnonFuncs {
+			if isRangeFuncBody(a) {
+				n++
+				c.inst(label + ": range-over-func body " + shortName(a))
+				c.nontrivial(label + shortName(a))
+				for _, r := range returnsOf(a) {
+					if a.Recover != nil && r.Block() == a.Recover {
+						continue
+					}
+					if len(r.Results) != 1 || !ConstBool(true)(r.Results[0]) {
+						c.violate(r, a, label, label+": the loop is left early (break/return) before every element was visited", nil)
+					}
+				}
+			}
+			walk(a)
+		}
+	}
+	walk(fn)
+	return n
+}
